@@ -352,6 +352,15 @@ pub fn check_family(ctx: &Ctx, tag: &str, fam: &[Vec<u8>], eval: &(dyn Fn(&[u8])
     };
     let rep = serde_json::json!({"kind": "family", "frames": fam.iter().map(hex::encode).collect::<Vec<_>>()});
     let mut seen: Vec<Vec<String>> = vec![vec![]; fam.len()];
+    // the reference evaluation of each member: alone on a brand-new thread, where thread-local state of any kind is
+    // still empty (the flush inputs can only evict state of the kinds they happen to exercise)
+    for (i, f) in fam.iter().enumerate() {
+        let r = std::thread::scope(|sc| sc.spawn(|| eval(f)).join());
+        match r {
+            Ok(x) => seen[i].push(x),
+            Err(_) => seen[i].push("PANIC in a fresh thread".to_string()),
+        }
+    }
     flush();
     for (i, f) in fam.iter().enumerate() {
         seen[i].push(eval(f));
@@ -368,10 +377,10 @@ pub fn check_family(ctx: &Ctx, tag: &str, fam: &[Vec<u8>], eval: &(dyn Fn(&[u8])
     for (i, s) in seen.iter().enumerate() {
         // equal inputs in one family share their results
         if let Some(k) = (1..s.len()).find(|k| s[*k] != s[0]) {
-            let how = ["in the given order", "in reverse order", "alone after an unrelated input"][k];
+            let how = ["", "in the given order", "in reverse order", "alone after unrelated inputs"][k.min(3)];
             return Err(Failure::new(
                 format!("{tag}:result-depends-on-history"),
-                format!("input {} ({}) gives\n  {}\n{how} but\n  {}\nin the given order", i, hex::encode(&fam[i]), s[k].chars().take(400).collect::<String>(), s[0].chars().take(400).collect::<String>()),
+                format!("input {} ({}) gives\n  {}\n{how} but\n  {}\nalone on a fresh thread", i, hex::encode(&fam[i]), s[k].chars().take(400).collect::<String>(), s[0].chars().take(400).collect::<String>()),
                 rep,
             ));
         }
